@@ -80,6 +80,9 @@ pub enum Col {
     Content { packs: u16, maxid: u32 },
     /// references: pattern over entry numbers
     RefPat(RefPat),
+    /// entries are the nodes of a complete `b`-ary tree inserted depth-first: a RefTo column refers to the parent
+    /// (the root to itself), a UInt column holds the rank among the siblings
+    Tree(u8),
 }
 
 #[derive(Clone, Copy, Debug, PartialEq)]
@@ -154,6 +157,7 @@ fn col_to_json(c: &Col) -> Value {
         Col::ArrAroundPrefix => json!("arr_prefix"),
         Col::ArrLen256 => json!("arr_len256"),
         Col::Content { packs, maxid } => json!({"content": [packs, maxid]}),
+        Col::Tree(b) => json!({"tree": b}),
         Col::RefPat(p) => json!({"ref": match p {
             RefPat::Next => "next", RefPat::Prev => "prev", RefPat::Self_ => "self", RefPat::Perm => "perm",
             RefPat::AllToOne => "all_to_one", RefPat::Random => "random"}}),
@@ -180,6 +184,9 @@ fn col_from_json(v: &Value) -> Col {
     }
     if let Some(a) = v.get("content").and_then(|x| x.as_array()) {
         return Col::Content { packs: a[0].as_u64().unwrap_or(1) as u16, maxid: a[1].as_u64().unwrap_or(10) as u32 };
+    }
+    if let Some(b) = v.get("tree").and_then(|x| x.as_u64()) {
+        return Col::Tree(b as u8);
     }
     if let Some(s) = v.get("ref").and_then(|x| x.as_str()) {
         return Col::RefPat(match s {
@@ -398,6 +405,8 @@ pub fn expand(case: &DirCase, si: usize) -> Vec<EntryModel> {
                 }
             }
             let val = match (&p.kind, &p.col) {
+                (PKind::UInt, Col::Tree(b)) => Val::U(tree_dfs(n, *b as usize)[e].1 as u64),
+                (PKind::RefTo, Col::Tree(b)) => Val::Ref(tree_dfs(n, *b as usize)[e].0),
                 (PKind::UInt, Col::Const) => Val::U(cval_u),
                 (PKind::UInt, Col::Small) => Val::U(rng.below(200)),
                 (PKind::UInt, Col::Width(w)) => Val::U(uint_of_width(&mut rng, *w)),
@@ -481,6 +490,28 @@ pub fn expand(case: &DirCase, si: usize) -> Vec<EntryModel> {
         }
     }
     entries
+}
+
+/// Complete b-ary tree of n nodes (breadth-first ids), listed depth-first: for insertion number e the pair
+/// (insertion number of the parent, rank among siblings). The root is its own parent.
+pub fn tree_dfs(n: usize, b: usize) -> Vec<(usize, usize)> {
+    let b = b.max(2);
+    let mut order = Vec::with_capacity(n); // bfs ids in dfs order
+    let mut stack = vec![0usize];
+    while let Some(x) = stack.pop() {
+        if x >= n {
+            continue;
+        }
+        order.push(x);
+        for c in (0..b).rev() {
+            stack.push(x * b + 1 + c);
+        }
+    }
+    let mut pos = vec![0usize; n];
+    for (e, x) in order.iter().enumerate() {
+        pos[*x] = e;
+    }
+    order.iter().map(|x| if *x == 0 { (pos[0], 0) } else { (pos[(*x - 1) / b], (*x - 1) % b + 1) }).collect()
 }
 
 /// wrapper giving `Val` a total order for sets (reader order, arrays bytewise)
